@@ -22,11 +22,17 @@ open StepModel.Generated
 
 /-! ## structure layer -/
 
-/-- parentheses are omitted under an equal parent only for operators that are associative in EXPRESS -/
-theorem C07_omit_only_associative : ∀ o : BinOp, o.omitSame = true → o.assocInExpress = true := by
-  intro o; cases o <;> decide
+/-- **Parentheses are omitted only where leaving them out gives the same tree back.**  `EXPRop2__out` hands its operator as
+`previous_op` to the LEFT operand only (regenerated from the two `EXPR__out` calls of `EXPRop2__out`): a left operand with the
+same operator is printed without parentheses — and the parser, for which these operators are `%left` (`C07_omit_left_assoc`),
+builds `a + b + c` as `(a + b) + c`, the tree that was printed.  A right operand never continues a chain (`chainR`): `a + (b + c)`
+keeps its parentheses.  No associativity of any EXPRESS operator is assumed (the operators are overloaded: `s + (a + b)` adds one
+element to the aggregate `s`, `(s + a) + b` two; the printer has no operand types).  Refuted by the unrepaired code, which handed the
+operator to both operands (repaired, C07-16). -/
+theorem C07_omit_only_left_nested : ExpPrec.rightOperandSeesParent = false ∧ ∀ o : BinOp, o.chainR = false ∧ rprev o = none :=
+  ⟨rfl, fun o => ⟨chainR_false o, rprev_none o⟩⟩
 
-/-- … and those are declared left-associative in expparse.y, so the parser re-reads a chain to the left -/
+/-- the operators whose LEFT operand may drop its parentheses are declared left-associative in expparse.y -/
 theorem C07_omit_left_assoc : ∀ o : BinOp, o.omitSame = true → o.rightAssoc = false := by
   intro o; cases o <;> decide
 
@@ -34,219 +40,23 @@ theorem C07_omit_left_assoc : ∀ o : BinOp, o.omitSame = true → o.rightAssoc 
 theorem C07_tables_total : ∀ o : BinOp, o.text ≠ "(* unknown op-expression *)" ∧ o.padded = true ∧ o.level ≠ 0 ∧ o.tokName ≠ "" := by
   intro o; cases o <;> decide
 
-/-- equality up to re-association of operators that are associative in EXPRESS (congruence closure) -/
-inductive Equiv : Expr → Expr → Prop
-  | refl (e) : Equiv e e
-  | trans {a b c} : Equiv a b → Equiv b c → Equiv a c
-  | assoc (o a b c) : o.assocInExpress = true → Equiv (.bin o a (.bin o b c)) (.bin o (.bin o a b) c)
-  | bin (o) {a a' b b'} : Equiv a a' → Equiv b b' → Equiv (.bin o a b) (.bin o a' b')
-  | neg {a a'} : Equiv a a' → Equiv (.neg a) (.neg a')
-  | not {a a'} : Equiv a a' → Equiv (.not a) (.not a')
-  | dot {a a'} (f) : Equiv a a' → Equiv (.dot a f) (.dot a' f)
-  | group {a a'} (f) : Equiv a a' → Equiv (.group a f) (.group a' f)
-  | index {a a' i i'} : Equiv a a' → Equiv i i' → Equiv (.index a i) (.index a' i')
-  | range {a a' i i' j j'} : Equiv a a' → Equiv i i' → Equiv j j' → Equiv (.range a i j) (.range a' i' j')
-  | query (v) {s s' c c'} : Equiv s s' → Equiv c c' → Equiv (.query v s c) (.query v s' c')
-  | call (f) {a a'} : Equiv a a' → Equiv (.call f a) (.call f a')
-  | aggr {a a'} : Equiv a a' → Equiv (.aggr a) (.aggr a')
-  | cons {e e' t t'} : Equiv e e' → Equiv t t' → Equiv (.cons e t) (.cons e' t')
-  | rep {e e' c c' t t'} : Equiv e e' → Equiv c c' → Equiv t t' → Equiv (.rep e c t) (.rep e' c' t')
+/-- **What the parser reads back is the expression itself**: `norm` regroups a chain only where a right operand was printed without
+its parentheses, and that is nowhere (`C07_omit_only_left_nested`) -/
+theorem C07_norm_id (e : Expr) : norm e = e := norm_id e
 
-theorem equiv_attach (o : BinOp) (h : o.assocInExpress = true) (l : Expr) : ∀ r, Equiv (.bin o l r) (attach o l r) := by
-  intro r
-  induction r with
-  | bin o' r1 r2 ih1 _ =>
-    unfold attach
-    by_cases ho : o' = o
-    · subst ho
-      simp only [if_true]
-      exact Equiv.trans (Equiv.assoc o' l r1 r2 h) (Equiv.bin o' ih1 (Equiv.refl _))
-    · simp only [ho, if_false]; exact Equiv.refl _
-  | _ => unfold attach; exact Equiv.refl _
-
-theorem equiv_normWith (f : BinOp → Bool) (hf : ∀ o, f o = true → o.assocInExpress = true) : ∀ e, Equiv e (normWith f e) := by
-  intro e
-  induction e with
-  | bin o a b iha ihb =>
-    unfold normWith
-    by_cases h : f o = true
-    · simp only [h, if_true]
-      exact Equiv.trans (Equiv.bin o iha ihb) (equiv_attach o (hf o h) _ _)
-    · simp only [h]; exact Equiv.bin o iha ihb
-  | neg a ih => unfold normWith; exact Equiv.neg ih
-  | not a ih => unfold normWith; exact Equiv.not ih
-  | dot a f ih => unfold normWith; exact Equiv.dot f ih
-  | group a f ih => unfold normWith; exact Equiv.group f ih
-  | index a i iha ihi => unfold normWith; exact Equiv.index iha ihi
-  | range a i j iha ihi ihj => unfold normWith; exact Equiv.range iha ihi ihj
-  | query v s c ihs ihc => unfold normWith; exact Equiv.query v ihs ihc
-  | call f a ih => unfold normWith; exact Equiv.call f ih
-  | aggr a ih => unfold normWith; exact Equiv.aggr ih
-  | cons e t ihe iht => unfold normWith; exact Equiv.cons ihe iht
-  | rep e c t ihe ihc iht => unfold normWith; exact Equiv.rep ihe ihc iht
-  | lit l => unfold normWith; exact Equiv.refl _
-  | ident s => unfold normWith; exact Equiv.refl _
-  | nil => unfold normWith; exact Equiv.refl _
-
-/-- what the parser reads back from exppp's text (`norm`: chains flattened exactly where exppp omits parentheses) differs from
-the expression only by re-association of operators that are associative in EXPRESS -/
-theorem C07_norm_equiv (e : Expr) : Equiv e (norm e) :=
-  equiv_normWith BinOp.omitSame C07_omit_only_associative e
-
-/-- the oracle's normal form is sound for the same reason -/
-theorem C07_normSpec_equiv (e : Expr) : Equiv e (normSpec e) := equiv_normWith _ (fun _ h => h) e
-
-example : norm (.bin .plus (.ident "a") (.bin .plus (.ident "b") (.ident "c")))
-    = .bin .plus (.bin .plus (.ident "a") (.ident "b")) (.ident "c") := by decide
-example : norm (.bin .eq (.ident "x") (.bin .eq (.ident "x") (.lit (.int 1))))
-    = .bin .eq (.ident "x") (.bin .eq (.ident "x") (.lit (.int 1))) := by decide
+example : norm (.bin .plus (.ident "s") (.bin .plus (.ident "a") (.ident "b")))
+    = .bin .plus (.ident "s") (.bin .plus (.ident "a") (.ident "b")) := by decide
+example : toks Shared.clean (.bin .plus (.ident "s") (.bin .plus (.ident "a") (.ident "b"))) false none
+    = [.id "s", .op .plus, .lp, .id "a", .op .plus, .id "b", .rp] := by decide
+example : toks Shared.clean (.bin .plus (.bin .plus (.ident "s") (.ident "a")) (.ident "b")) false none
+    = [.id "s", .op .plus, .id "a", .op .plus, .id "b"] := by decide
 
 /-! ### stability at token level -/
-
-theorem binParen_same (o : BinOp) (h : o.omitSame = true) : binParen o true (some o) = false := by
-  simp [binParen, h]
-
-theorem toks_attach (sh : Shared) (o : BinOp) (h : o.omitSame = true) (l : Expr) :
-    ∀ r p q, toks sh (attach o l r) p q = toks sh (.bin o l r) p q := by
-  intro r
-  induction r with
-  | bin o' r1 r2 ih1 _ =>
-    intro p q
-    unfold attach
-    by_cases ho : o' = o
-    · subst ho
-      simp only [if_true]
-      simp only [toks, ih1 true (some o'), binParen_same o' h]
-      simp [List.append_assoc]
-    · simp only [ho, if_false]
-  | _ => intro p q; unfold attach; rfl
-
-theorem sharedRep_normWith (f : BinOp → Bool) (sh : Shared) (e : Expr) : sharedRep sh (normWith f e) = sharedRep sh e := by
-  cases e with
-  | bin o a b =>
-    unfold normWith
-    by_cases h : f o = true
-    · simp only [h, if_true]
-      cases hb : normWith f b with
-      | bin o' r1 r2 =>
-        unfold attach
-        by_cases ho : o' = o <;> simp [ho, sharedRep]
-      | _ => simp [attach, sharedRep]
-    · simp [h, sharedRep]
-  | _ => simp [normWith, sharedRep]
-
-theorem attach_top (o : BinOp) (l r : Expr) : ∃ x y, attach o l r = .bin o x y := by
-  cases r with
-  | bin o' r1 r2 => unfold attach; by_cases ho : o' = o <;> simp [ho]
-  | _ => simp [attach]
-
-theorem indexParen_normWith (f : BinOp → Bool) (e : Expr) : indexParen (normWith f e) = indexParen e := by
-  cases e with
-  | bin o a b =>
-    unfold normWith
-    by_cases h : f o = true
-    · rw [if_pos h]
-      obtain ⟨x, y, hxy⟩ := attach_top o (normWith f a) (normWith f b)
-      rw [hxy]; simp [indexParen]
-    · rw [if_neg h]; simp [indexParen]
-  | _ => simp [normWith, indexParen]
-
-theorem count_normWith_lit (f : BinOp → Bool) (c : Expr) : countTok (normWith f c) = countTok c := by
-  cases c with
-  | bin o a b =>
-    unfold normWith
-    by_cases h : f o = true
-    · simp only [h, if_true]
-      cases hb : normWith f b with
-      | bin o' r1 r2 => unfold attach; by_cases ho : o' = o <;> simp [ho, countTok]
-      | _ => simp [attach, countTok]
-    · simp [h, countTok]
-  | _ => simp [normWith, countTok]
-
-theorem toks_norm_all (sh : Shared) (e : Expr) :
-    (∀ p q, toks sh (norm e) p q = toks sh e p q) ∧ (∀ fst, argToks sh (norm e) fst = argToks sh e fst)
-      ∧ (∀ fst, itemToks sh (norm e) fst = itemToks sh e fst) := by
-  induction e with
-  | bin o a b iha ihb =>
-    refine ⟨?_, ?_, ?_⟩
-    · intro p q
-      show toks sh (normWith _ (.bin o a b)) p q = _
-      unfold normWith
-      by_cases h : o.omitSame = true
-      · rw [if_pos h, toks_attach sh o h]
-        simp only [toks]
-        rw [show normWith BinOp.omitSame a = norm a from rfl, show normWith BinOp.omitSame b = norm b from rfl, iha.1, ihb.1]
-      · rw [if_neg h]
-        simp only [toks]
-        rw [show normWith BinOp.omitSame a = norm a from rfl, show normWith BinOp.omitSame b = norm b from rfl, iha.1, ihb.1]
-    · intro fst
-      show argToks sh (normWith _ (.bin o a b)) fst = _
-      unfold normWith
-      by_cases h : o.omitSame = true
-      · simp only [h, if_true]
-        cases hb : normWith BinOp.omitSame b with
-        | bin o' r1 r2 => unfold attach; by_cases ho : o' = o <;> simp [ho, argToks]
-        | _ => simp [attach, argToks]
-      · simp [h, argToks]
-    · intro fst
-      show itemToks sh (normWith _ (.bin o a b)) fst = _
-      unfold normWith
-      by_cases h : o.omitSame = true
-      · simp only [h, if_true]
-        cases hb : normWith BinOp.omitSame b with
-        | bin o' r1 r2 => unfold attach; by_cases ho : o' = o <;> simp [ho, itemToks]
-        | _ => simp [attach, itemToks]
-      · simp [h, itemToks]
-  | neg a ih => exact ⟨fun p q => by simp [norm, normWith, toks]; exact ih.1 true none |> fun h => by simpa [norm] using h, fun _ => by simp [norm, normWith, argToks], fun _ => by simp [norm, normWith, itemToks]⟩
-  | not a ih => exact ⟨fun p q => by simp [norm, normWith, toks]; exact ih.1 true none |> fun h => by simpa [norm] using h, fun _ => by simp [norm, normWith, argToks], fun _ => by simp [norm, normWith, itemToks]⟩
-  | dot a f ih => exact ⟨fun p q => by simp [norm, normWith, toks]; exact ih.1 true none |> fun h => by simpa [norm] using h, fun _ => by simp [norm, normWith, argToks], fun _ => by simp [norm, normWith, itemToks]⟩
-  | group a f ih => exact ⟨fun p q => by simp [norm, normWith, toks]; exact ih.1 true none |> fun h => by simpa [norm] using h, fun _ => by simp [norm, normWith, argToks], fun _ => by simp [norm, normWith, itemToks]⟩
-  | index a i iha ihi =>
-    refine ⟨fun p q => ?_, fun _ => by simp [norm, normWith, argToks], fun _ => by simp [norm, normWith, itemToks]⟩
-    have h1 := iha.1 true none; have h2 := ihi.1 (indexParen i) none
-    simp only [norm] at h1 h2 ⊢
-    simp [normWith, toks, h1, h2, indexParen_normWith]
-  | range a i j iha ihi ihj =>
-    refine ⟨fun p q => ?_, fun _ => by simp [norm, normWith, argToks], fun _ => by simp [norm, normWith, itemToks]⟩
-    have h1 := iha.1 true none; have h2 := ihi.1 (indexParen i) none; have h3 := ihj.1 (indexParen j) none
-    simp only [norm] at h1 h2 h3 ⊢
-    simp [normWith, toks, h1, h2, h3, indexParen_normWith]
-  | query v s c ihs ihc =>
-    refine ⟨fun p q => ?_, fun _ => by simp [norm, normWith, argToks], fun _ => by simp [norm, normWith, itemToks]⟩
-    have h1 := ihs.1 true none; have h2 := ihc.1 true none
-    simp only [norm] at h1 h2 ⊢
-    simp [normWith, toks, h1, h2]
-  | call f a ih =>
-    refine ⟨fun p q => ?_, fun _ => by simp [norm, normWith, argToks], fun _ => by simp [norm, normWith, itemToks]⟩
-    have h1 := ih.2.1 true
-    simp only [norm] at h1 ⊢
-    simp [normWith, toks, h1]
-  | aggr a ih =>
-    refine ⟨fun p q => ?_, fun _ => by simp [norm, normWith, argToks], fun _ => by simp [norm, normWith, itemToks]⟩
-    have h1 := ih.2.2 true
-    simp only [norm] at h1 ⊢
-    simp [normWith, toks, h1]
-  | cons e t ihe iht =>
-    refine ⟨fun p q => by simp [norm, normWith, toks], fun fst => ?_, fun fst => ?_⟩
-    · have h1 := ihe.1 false none; have h2 := iht.2.1 false
-      simp only [norm] at h1 h2 ⊢
-      simp [normWith, argToks, h1, h2]
-    · have h1 := ihe.1 false none; have h2 := iht.2.2 false
-      simp only [norm] at h1 h2 ⊢
-      simp [normWith, itemToks, h1, h2, sharedRep_normWith]
-  | rep e c t ihe ihc iht =>
-    refine ⟨fun p q => by simp [norm, normWith, toks], fun fst => by simp [norm, normWith, argToks], fun fst => ?_⟩
-    have h1 := ihe.1 false none; have h2 := iht.2.2 false; have h3 := ihc.1 false none
-    simp only [norm] at h1 h2 h3 ⊢
-    simp only [normWith, itemToks, h1, h2, h3, sharedRep_normWith, count_normWith_lit]
-  | lit l => exact ⟨fun _ _ => rfl, fun _ => rfl, fun _ => rfl⟩
-  | ident s => exact ⟨fun _ _ => rfl, fun _ => rfl, fun _ => rfl⟩
-  | nil => exact ⟨fun _ _ => rfl, fun _ => rfl, fun _ => rfl⟩
 
 /-- stability: printing what the parser reads back (`norm e`) gives token for token what printing `e` gave, in every
 context (`paren`, parent operator) and for every state of the shared-literal flags -/
 theorem C07_stable (sh : Shared) (e : Expr) (paren : Bool) (prev : Option BinOp) :
-    toks sh (norm e) paren prev = toks sh e paren prev := (toks_norm_all sh e).1 paren prev
+    toks sh (norm e) paren prev = toks sh e paren prev := by rw [norm_id]
 
 /-- the normal form is a fixed point: a third printing changes nothing either -/
 theorem C07_stable_twice (sh : Shared) (e : Expr) (paren : Bool) (prev : Option BinOp) :
@@ -261,7 +71,7 @@ expression (`wfE`: literals, identifiers, all 21 two-operand operators in any ne
 repetition counts, QUERY) the precedence parser driven by the regenerated `%left/%right` levels, strata, omit-parentheses
 dispatch and index-operand rule returns exactly `norm e` on the tokens exppp prints for `e` in top-level position.
 Hypotheses in `wfE`: argument/item lists are proper spines; the `%#.15g` text of a real literal contains its point (`LitWF`,\na property of printf's `#` flag; that `real2exp` keeps it is `C07_real_keeps_point`). -/
-theorem C07_parse_print (e : Expr) (hw : wfE e) :
+theorem parse_print_norm (e : Expr) (hw : wfE e) :
     parse (toks Shared.clean e false none) = some (norm e) := by
   have E := ((parseOK_all e).1 hw).1
   obtain ⟨c, hc1, hc2, L⟩ := E.loop false none
@@ -278,30 +88,55 @@ theorem C07_parse_print (e : Expr) (hw : wfE e) :
   obtain ⟨j, hj⟩ : ∃ j, 8 * (T e false none).length + 8 - c = j + 1 := ⟨8 * (T e false none).length + 8 - c - 1, by omega⟩
   rw [hj, parseLoop_stop j 0 (norm e) [] (by simp [Fol])]
 
+/-- **`parse ∘ print` is the identity — for the whole expression grammar.**  For every well-formed expression (`wfE`: literals,
+identifiers, all 21 two-operand operators in any nesting, negation, NOT, attribute `.` and group `\` qualifiers, index `[i]` and
+`[i:j]`, function calls with any number of arguments, aggregate initialisers with and without repetition counts, QUERY) the
+precedence parser driven by the regenerated `%left/%right` levels, strata, omit-parentheses dispatch and index-operand rule
+returns, from the tokens exppp prints for `e` in top-level position, exactly `e`: the same tree, not merely an "equivalent" one —
+no re-association is involved (`C07_omit_only_left_nested`).  REAL literals are opaque tokens here (the token carries the
+`%#.15g` text; spelling and value: `C07_real_keeps_point`, `C07_lex_layout_respelled_partial`, numeric grid of the check).
+Hypotheses in `wfE`: argument/item lists are proper spines; the `%#.15g` text of a real literal contains its point (`LitWF`). -/
+theorem C07_parse_print (e : Expr) (hw : wfE e) :
+    parse (toks Shared.clean e false none) = some e := by
+  have := parse_print_norm e hw
+  rwa [norm_id] at this
+
+/-- the same for an expression printed with `paren = 1` at top level (`EXPR_out( e, 1 )`: QUERY source, RETURN value, …): an
+operator expression comes out in parentheses and is read back as the same tree -/
+theorem C07_parse_print_paren (e : Expr) (hw : wfE e) :
+    parse (toks Shared.clean e true none) = some e := by
+  have E := ((parseOK_all e).1 hw).1
+  have hlen := (sz_le_toks e).1 hw true none
+  have hu := E.unary true none (closed_true_none e) (8 * (T e true none).length + 7) (by omega) [] (by simp [NoQ])
+  simp only [List.append_nil] at hu
+  unfold parse
+  show (match parseExpr (8 * (T e true none).length + 8) 0 (T e true none) with
+        | some (e, []) => some e
+        | _ => none) = some e
+  rw [parseExpr, hu]
+  obtain ⟨j, hj⟩ : ∃ j, 8 * (T e true none).length + 7 = j + 1 := ⟨8 * (T e true none).length + 6, by omega⟩
+  rw [hj]
+  simp only []
+  rw [parseLoop_stop j 0 (norm e) [] (by simp [Fol]), norm_id]
+
 /-- **`real2exp` keeps the decimal point** (was the hypothesis `LitWF`): the text `printf("%#.15g")` gives has a point, and after
 `real2exp` removed trailing zeros the spelling still has one — a REAL literal is never printed as an INTEGER literal -/
 theorem C07_real_keeps_point (g : List Char) (h : '.' ∈ g) :
     '.' ∈ real2exp g ∧ (real2exp g).all Char.isDigit = false :=
   ⟨real2exp_keeps_point g h, real2exp_not_all_digits g h⟩
 
-/-- … hence the text is accepted by the expression grammar and denotes the source expression up to re-association of
-operators that are associative in EXPRESS -/
-theorem C07_parse_print_equiv (e : Expr) (hw : wfE e) :
-    ∃ e', parse (toks Shared.clean e false none) = some e' ∧ Equiv e e' :=
-  ⟨norm e, C07_parse_print e hw, C07_norm_equiv e⟩
-
 /-- … and printing what was read gives the same tokens again (second printing = first) -/
 theorem C07_reprint (e : Expr) (hw : wfE e) :
     (parse (toks Shared.clean e false none)).map (fun e' => toks Shared.clean e' false none)
       = some (toks Shared.clean e false none) := by
   rw [C07_parse_print e hw]
-  simp [C07_stable]
+  simp
 
 /-- the same inside every bracketing context exppp creates: as an index operand (a `simple_expression` position) the
 printed operand is read back whole, whatever follows the closing bracket -/
 theorem C07_parse_print_index_operand (i : Expr) (hw : wfE i) (r : List Tok) :
-    ∀ n, 4 * sz i ≤ n → parseExpr n simpleMin (toks Shared.clean i (indexParen i) none ++ .rb :: r) = some (norm i, .rb :: r) :=
-  fun n hn => bracket_operand i ((parseOK_all i).1 hw).1 n hn _ ⟨r, Or.inl rfl⟩
+    ∀ n, 4 * sz i ≤ n → parseExpr n simpleMin (toks Shared.clean i (indexParen i) none ++ .rb :: r) = some (i, .rb :: r) :=
+  fun n hn => by have := bracket_operand i ((parseOK_all i).1 hw).1 n hn _ ⟨r, Or.inl rfl⟩; rwa [norm_id] at this
 
 example : wfE (.index (.dot (.ident "a") "b") (.bin .eq (.call "f" (.cons (.ident "x") (.cons (.lit (.int 1)) .nil))) (.ident "y"))) := by
   simp [wfE, wfArgs, LitWF]
@@ -414,33 +249,31 @@ theorem C07_locals_printed_iff (ls : List Local) (hn : ∀ l ∈ ls, l.name.leng
 
 /-! ### declarations: ENTITY -/
 
-/-- supertype chains joined by one operator are associative: `AND` and `ANDOR` are printed through `EXPRop2__out( …, previous_op )`
-(regenerated dispatch), which is why `a AND (b AND c)` comes out as `a AND b AND c` -/
-theorem C07_supertype_ops_omit : supOmit false = true ∧ supOmit true = true := by decide
+/-- in a supertype expression `AND` and `ANDOR` go through `EXPRop2__out( …, previous_op )` (regenerated dispatch): a LEFT operand
+with the same operator is printed without parentheses (`a AND b AND c` = `(a AND b) AND c`, the tree the single left-associative
+level of `supertype_expression` builds); a right operand keeps them (`C07_omit_only_left_nested`) -/
+theorem C07_supertype_ops_omit : supOmit false = true ∧ supOmit true = true ∧ ∀ o, supRprev o = none :=
+  ⟨by decide, by decide, supRprev_none⟩
 
 /-- **Supertype expressions: print/parse round trip.**  For every supertype expression the grammar can build (entity references,
-ONEOF lists, AND / ANDOR, any nesting) the reader of `supertype_expression` returns, from the tokens exppp prints, the expression
-with chains of one operator regrouped to the left (`supNorm`) — and printing that gives the same tokens (`C07_supertype_stable`).
-`r`: whatever follows (not AND / ANDOR); fuel: any sufficiently large number. -/
+ONEOF lists, AND / ANDOR, any nesting) the reader of `supertype_expression` returns, from the tokens exppp prints, the same
+expression — the same tree, no regrouping.  `r`: whatever follows (not AND / ANDOR); fuel: any sufficiently large number. -/
 theorem C07_supertype_roundtrip (s : SupEx) (h : wfSup s) (r : List DTok) (hr : NoOp r) :
-    ∃ n0, ∀ n, n0 ≤ n → parseSupExpr n (supToks s false none ++ r) = some (supNorm s, r) := by
-  have := sup_roundtrip_normal (supNorm s) ((supNorm_all s).2.1 h) r hr
-  rw [(supNorm_all s).1.1] at this
-  exact this
+    ∃ n0, ∀ n, n0 ≤ n → parseSupExpr n (supToks s false none ++ r) = some (s, r) :=
+  sup_roundtrip_normal s ((wfSup_normal s).1 h) r hr
 
-theorem C07_supertype_stable (s : SupEx) (p : Bool) (q : Option Bool) : supToks (supNorm s) p q = supToks s p q :=
-  (supNorm_all s).1.1 p q
+theorem C07_supertype_stable (s : SupEx) (p : Bool) (q : Option Bool) : supToks (supNorm s) p q = supToks s p q ∧ supNorm s = s :=
+  ⟨(supNorm_all s).1.1 p q, supNorm_id s⟩
 
 /-- **ENTITY declarations: print/parse round trip at token level, independent of the line length.**  Header (ABSTRACT, SUPERTYPE
 OF with its expression, SUBTYPE OF), explicit attributes (OPTIONAL, redeclared names `SELF\e.a`, every type of
 `C07_type_roundtrip`), DERIVE, INVERSE (SET/BAG with bounds, FOR), UNIQUE (labels, reference lists), WHERE (labels): the reader
-following `entity_decl` of expparse.y returns, from the tokens `ENTITY_out` prints, the same declaration (supertype expression
-regrouped as in `C07_supertype_roundtrip`), whatever follows.  Embedded expressions are single tokens here (`C07_parse_print`,
+following `entity_decl` of expparse.y returns, from the tokens `ENTITY_out` prints, the same declaration, whatever follows.  Embedded expressions are single tokens here (`C07_parse_print`,
 `C07_lex_layout_partial` for their own round trip). -/
 theorem C07_entity_roundtrip (e : EntityDecl) (h : wfEntityP e) (r : List DTok) :
-    ∃ n0, ∀ n, n0 ≤ n → parseEntity n (entityToks e ++ r) = some (e.norm, r) := by
+    ∃ n0, ∀ n, n0 ≤ n → parseEntity n (entityToks e ++ r) = some (e, r) := by
   have := entity_rt e.norm (wfEntity_norm e h) r
-  rw [entityToks_norm] at this
+  rw [entityToks_norm, entity_norm_id] at this
   exact this
 
 /-! ### statements -/
